@@ -191,16 +191,24 @@ def main():
         init = clist(roots, lambda o: snapshot(o, tok))
         hist = []
         nops = rng.randint(3, maxlen)
+        force = None
         for _ in range(nops):
             h = rng.randrange(len(roots))
             paths = all_paths(roots[h])
             path = list(rng.choice(paths))
+            if force is not None:
+                # scripted continuation: after moving an object (possibly with hidden children), copy the receiving tree
+                h, path = force, []
+                paths = all_paths(roots[h])
             try:
                 target = node_at(roots[h], path)
             except Exception:
                 continue
             is_struct = isinstance(target, StructureType)
-            kind = rng.choice(["set", "set", "set", "insertcopy", "del", "copy", "select", "attr", "data", "replace"])
+            kind = rng.choice(["set", "set", "set", "insertcopy", "del", "copy", "select", "select", "attr", "data", "replace",
+                               "move", "move"])
+            if force is not None:
+                kind, force = "copy", None
             before = [plain(x) for x in roots]
             try:
                 if kind in ("set", "replace"):
@@ -238,6 +246,24 @@ def main():
                     opc = "(OInsertCopy %d %s %d %s)" % (h, clist(path, cchars), h2, clist(p2, cchars))
                     try:
                         target[src.name] = copy.copy(src)
+                    except Exception:
+                        pass
+                elif kind == "move":
+                    # insert a whole existing object (e.g. a sub-selection with hidden children) into another tree
+                    if not is_struct or len(roots) < 3:
+                        continue
+                    cands = [j for j in range(len(roots)) if j != h and not isinstance(roots[j], DatasetType)
+                             and roots[j].name != "moved"]
+                    if not cands:
+                        continue
+                    hidden = [j for j in cands if hasattr(roots[j], "_dict") and len(roots[j]._visible_keys) < len(roots[j]._dict)]
+                    h2 = rng.choice(hidden if hidden and rng.random() < 0.8 else cands)
+                    src = roots[h2]
+                    force = h
+                    opc = "(OMove %d %s %d)" % (h, clist(path, cchars), h2)
+                    try:
+                        target[src.name] = src
+                        roots[h2] = StructureType("moved")
                     except Exception:
                         pass
                 elif kind == "del":
@@ -278,7 +304,7 @@ def main():
             # direct oracle: separation (only the edited handle may change) and the invariants
             after = [plain(x) for x in roots]
             for i, (b, a) in enumerate(zip(before, after)):
-                if i != h and b != a and len(direct) < 20:
+                if i != h and not (kind == "move" and opc.endswith(" %d)" % i)) and b != a and len(direct) < 20:
                     direct.append({"law": "editing one object changed another", "edited_handle": h, "changed_handle": i,
                                    "op": opc})
             for i, x in enumerate(roots):
@@ -288,6 +314,53 @@ def main():
                                        "history_so_far": [hh.split(", [")[0] for hh in hist]})
         tcases.append("(%s, %s)" % (init, "[" + "; ".join(hist) + "]"))
         r.count(("hist", tuple(hh.split(", [")[0] for hh in hist)))
+    # ---- corpus: scripted histories (minimised from seeded changes), run with the same comparison
+    def scripted(script):
+        tok = Tokens()
+        roots = [DatasetType("ds"), StructureType("top")]
+        init = clist(roots, lambda o: snapshot(o, tok))
+        hist = []
+        for op in script:
+            k = op[0]
+            if k == "set":
+                _, h, path, fk, name = op
+                obj = BaseType(name, np.array(1)) if fk == "B" else StructureType(name)
+                node_at(roots[h], path)[name] = obj
+                opc = "(OSet %d %s %s)" % (h, clist(path, cchars), "(FBase %s %d%%N)" % (cchars(name), tok.of(obj._data))
+                                           if fk == "B" else "(FStruct KStructure %s)" % cchars(name))
+            elif k == "select":
+                _, h, path, keys = op
+                roots.append(node_at(roots[h], path)[tuple(keys)])
+                opc = "(OSelect %d %s %s)" % (h, clist(path, cchars), clist(keys, cchars))
+            elif k == "move":
+                _, h, path, h2 = op
+                node_at(roots[h], path)[roots[h2].name] = roots[h2]
+                roots[h2] = StructureType("moved")
+                opc = "(OMove %d %s %d)" % (h, clist(path, cchars), h2)
+            elif k == "copy":
+                _, h, path = op
+                roots.append(copy.copy(node_at(roots[h], path)))
+                opc = "(OCopy %d %s)" % (h, clist(path, cchars))
+            hist.append("(%s, %s)" % (opc, clist(roots, lambda o: snapshot(o, tok))))
+            for i, x in enumerate(roots):
+                for e in invariant_errors(x)[:2]:
+                    if len(direct) < 20:
+                        direct.append({"law": "tree invariant", "handle": i, "error": e, "after_op": opc, "corpus": True})
+        return "(%s, %s)" % (init, "[" + "; ".join(hist) + "]")
+
+    corpus = [
+        # a sub-selection (hidden child) moved to another place, then the receiving tree copied / selected again
+        [("set", 0, [], "S", "s"), ("set", 0, ["s"], "B", "a"), ("set", 0, ["s"], "B", "b c"), ("set", 0, [], "S", "t"),
+         ("select", 0, ["s"], ["a"]), ("move", 0, ["t"], 2), ("copy", 0, []), ("select", 0, ["t"], ["s"]), ("copy", 0, ["t", "s"])],
+        [("set", 1, [], "S", "x y"), ("set", 1, ["x y"], "B", "v[1]"), ("set", 1, ["x y"], "B", "w"), ("select", 1, ["x y"], ["w"]),
+         ("set", 0, [], "S", "deep"), ("set", 0, ["deep"], "S", "er"), ("move", 0, ["deep", "er"], 2), ("copy", 0, ["deep"]),
+         ("copy", 3, [])],
+    ]
+    for sc in corpus:
+        try:
+            tcases.insert(0, scripted(sc))
+        except Exception as e:  # noqa
+            direct.append({"law": "operation raised unexpectedly", "corpus": repr(sc)[:300], "error": repr(e)})
     r.extra["op_distribution"] = opcount
     r.extra["histories"] = nhist
 
